@@ -1,4 +1,5 @@
 import Rtcm.Proofs.MkFrame
+import Rtcm.Model.Message
 /-!
 # C13  A frame's interpretation does not depend on the bytes that follow it
 
@@ -63,6 +64,15 @@ theorem message_number_lt (d : List UInt8) (x : Frame) (h : frameNew d = .ok x) 
       Nat.testBit_lt_two_pow (Nat.lt_of_lt_of_le h4 (Nat.pow_le_pow_right (by decide : 2 > 0) (by omega : 8 ≤ 4 + i)))
     simp [a, b]
   · simp at hn
+
+/-- The decoded message is a function of the accepted frame record, hence it too is unchanged by
+appended bytes (for any dispatch table and build profile). -/
+theorem decoded_message_suffix_irrelevant (cfg : Cfg) (tbl : List Schema.MsgRow) (d sfx : List UInt8)
+    (x : Frame) (h : frameNew d = .ok x) :
+    (match frameNew (d ++ sfx) with
+      | .ok y => some (Message.decodeFrame cfg tbl y)
+      | .error _ => none) = some (Message.decodeFrame cfg tbl x) := by
+  rw [suffix_irrelevant d x h sfx]
 
 /-! Non-vacuity: the L = 0 and L = 1 frames of defect D1 with the suffix that used to change the
 message number, and an ordinary frame. -/
